@@ -7,7 +7,9 @@ from ..core import Fail, Result
 
 ID = "C10"
 RULE = ("case = generic SDE (Stratonovich, 4 noise types, drawn batch/state/noise sizes) x dyadic (t0, dt) x up to 64 "
-        "(thorough 256) steps x 1..5 output times on the step grid x drawn loss weights on all outputs x entropy. "
+        "(thorough 256) steps x 1..5 output times on the step grid x drawn loss weights (a drawn subset of output times, "
+        "possibly without the last one, gets weight zero) x optionally resumed at an output time through extra=True / "
+        "extra_solver_state x optionally a loss that also uses the returned extra state (f, z) x entropy. "
         "Gradients of the loss w.r.t. y0 and every parameter from sdeint_adjoint(method='reversible_heun', "
         "adjoint_method='adjoint_reversible_heun') are compared with backprop through sdeint(method='reversible_heun'): "
         "global relative difference <= 1e-9 (per tensor, with an absolute floor of 1e-9 * largest gradient norm). "
@@ -28,9 +30,15 @@ def _case(draw, tier):
     t0, dt, n = sdes.dyadic_grid(draw, max_log2_steps=6 if tier == "quick" else 8)
     n_out = draw(st.integers(1, min(n, 5)))
     cuts = sorted(set(draw(st.lists(st.integers(1, n), min_size=n_out, max_size=n_out)) + [n]))
+    # which output times the loss looks at ("all loss weightings" includes losses that ignore some outputs, the last one
+    # in particular) and whether the solve is resumed from the returned extra solver state / the loss uses the returned z
+    mask = draw(st.lists(st.sampled_from([1, 1, 0]), min_size=len(cuts) + 1, max_size=len(cuts) + 1))
+    if not any(mask):
+        mask[draw(st.integers(0, len(cuts)))] = 1
     return {"spec": spec, "t0": t0, "dt": dt, "cuts": cuts, "entropy": draw(st.integers(0, 2 ** 31 - 2)),
             "wseed": draw(st.integers(0, 2 ** 31 - 1)), "levy": draw(st.sampled_from(["none", "none", "space-time"])),
-            "y0_grad": draw(st.sampled_from([True, True, False]))}
+            "y0_grad": draw(st.sampled_from([True, True, False])), "mask": mask,
+            "resume_at": draw(st.sampled_from([None, None, 0, 1, 2])), "use_z": draw(st.sampled_from([False, False, True]))}
 
 
 def strategy(tier):
@@ -48,14 +56,31 @@ def run_case(case):
         sde = sdes.build_generic(spec)
         y0 = sdes.y0_for(spec).requires_grad_(case["y0_grad"])
         bm = sdes.make_bm(torchsde, spec, ts[0], ts[-1], case["entropy"], levy=case["levy"])
-        if adjoint:
-            ys = torchsde.sdeint_adjoint(sde, y0, ts, bm=bm, method="reversible_heun",
-                                         adjoint_method="adjoint_reversible_heun", dt=dt)
+        def solve(y_start, ts_part, extra_state):
+            kw = {} if extra_state is None else {"extra_solver_state": extra_state}
+            if adjoint:
+                return torchsde.sdeint_adjoint(sde, y_start, ts_part, bm=bm, method="reversible_heun",
+                                               adjoint_method="adjoint_reversible_heun", dt=dt, extra=True, **kw)
+            return torchsde.sdeint(sde, y_start, ts_part, bm=bm, method="reversible_heun", dt=dt, extra=True, **kw)
+
+        r = case.get("resume_at")
+        if r is not None and len(ts) >= 3:
+            k = 1 + r % (len(ts) - 2)               # resume at an interior output time (on the step grid)
+            ys1, extra1 = solve(y0, ts[:k + 1], None)
+            ys2, extra = solve(ys1[-1], ts[k:], extra1)
+            ys = torch.cat([ys1, ys2[1:]], dim=0)
+            resumed = True
         else:
-            ys = torchsde.sdeint(sde, y0, ts, bm=bm, method="reversible_heun", dt=dt)
+            ys, extra = solve(y0, ts, None)
+            resumed = False
         if not grads:
             w = torch.randn(ys.shape, generator=g, dtype=ys.dtype)
-        (ys * w).sum().backward()
+            w = w * torch.tensor(case.get("mask", [1] * len(ts)), dtype=ys.dtype).reshape(-1, 1, 1)
+            wz = torch.randn(extra[2].shape, generator=g, dtype=ys.dtype)
+        loss = (ys * w).sum()
+        if case.get("use_z"):
+            loss = loss + (extra[2] * wz).sum() + 0.3 * (extra[0] * wz).sum()
+        loss.backward()
         named = [("y0", y0.grad)] + [(n_, p.grad) for n_, p in sde.named_parameters()]
         grads.append((ys.detach(), named))
     (ys_a, ga), (ys_b, gb) = grads
@@ -88,5 +113,14 @@ def run_case(case):
     n = case["cuts"][-1]
     labels = [f"noise={spec['noise_type']}", f"outputs={min(len(case['cuts']), 3)}+" if len(case["cuts"]) >= 3 else
               f"outputs={len(case['cuts'])}", "y0_grad" if case["y0_grad"] else "y0_no_grad"]
+    mask = case.get("mask", [1])
+    if not all(mask):
+        labels.append("loss_ignores_some_outputs")
+    if not mask[-1]:
+        labels.append("loss_ignores_last_output")
+    if resumed:
+        labels.append("resumed_from_extra_state")
+    if case.get("use_z"):
+        labels.append("loss_uses_returned_extra_state")
     return Result(nontrivial=n >= 4 and len(case["cuts"]) >= 2, labels=labels, checks=checks,
                   metrics={"grad_relerr": worst, "steps": n})
